@@ -711,6 +711,66 @@ pub fn gen_c12(seed: u64, thorough: bool) {
     }
 }
 
+// =========================================================================================== units
+/// Time stamps (100 ns units) for `lines` such that label k ends exactly at a whole number of frames at the
+/// given (rate, frame period) and every label gets more than one frame per state; returns the stamped lines and
+/// the total number of frames the utterance must then have with alignment on (C09's law, C17's unit clause).
+pub fn stamp_lines(rng: &mut Rng, lines: &[String], sf: usize, fp: usize, nstate: usize) -> (Vec<String>, usize) {
+    let rate = sf as f64 / (fp as f64 * 1e7);
+    let mut cum = 0usize;
+    let mut prev = 0u64;
+    let mut out = Vec::new();
+    for l in lines {
+        cum += rng.range(nstate + 1, nstate + 30);
+        let end = (cum as f64 / rate).round() as u64;
+        out.push(format!("{} {} {}", prev, end, l));
+        prev = end;
+    }
+    (out, cum)
+}
+
+/// `units`: an engine whose sampling rate and frame period were reached through a setter HISTORY (several
+/// calls in random order), alignment on, fully time-stamped label strings through `Engine::synthesize`: the
+/// waveform must have `fperiod x frames` samples with the frames the 100 ns stamps say at the CURRENT rate and
+/// frame period; and an engine that reached the same values through another history gives the same waveform.
+pub fn gen_units(rng: &mut Rng, src: &Sources, n: usize) {
+    for i in 0..n {
+        let (base, kind) = if i % 3 == 0 { (src.bundled.clone(), "bundled") } else { src.any_engine(rng) };
+        let nstate = base.voices.global_metadata().num_states;
+        let sf = *rng.pick(&[8000usize, 16000, 22050, 44100, 48000, 96000]);
+        let fp = if rng.chance(0.5) { rng.range(1, 40) } else { rng.range(41, 480) };
+        let history = |rng: &mut Rng, e: &mut Engine, last: usize| {
+            // noise calls, then the final values with `last` (0 = rate, 1 = frame period) set last
+            for _ in 0..rng.range(0, 4) {
+                if rng.chance(0.5) { e.condition.set_fperiod(rng.range(1, 480)); } else { e.condition.set_sampling_frequency(*rng.pick(&[8000usize, 16000, 44100, 48000])); }
+                if rng.chance(0.3) { e.condition.set_phoneme_alignment_flag(rng.chance(0.5)); }
+            }
+            if last == 0 { e.condition.set_fperiod(fp); e.condition.set_phoneme_alignment_flag(true); e.condition.set_sampling_frequency(sf); }
+            else { e.condition.set_sampling_frequency(sf); e.condition.set_phoneme_alignment_flag(true); e.condition.set_fperiod(fp); }
+        };
+        let mut e1 = base.clone();
+        let mut e2 = base.clone();
+        let last1 = i % 2;
+        history(rng, &mut e1, last1);
+        history(rng, &mut e2, 1 - last1);
+        let nlab = rng.range(1, 4);
+        let recomb = rng.chance(0.5);
+        let lines = src.labels(rng, nlab, recomb);
+        let (stamped, frames) = stamp_lines(rng, &lines, sf, fp, nstate);
+        let w1 = catch(std::panic::AssertUnwindSafe(|| e1.synthesize(stamped.clone()).map_err(|e| format!("{e}"))));
+        let w2 = catch(std::panic::AssertUnwindSafe(|| e2.synthesize(stamped.clone()).map_err(|e| format!("{e}"))));
+        let (len1, len2, same) = match (&w1, &w2) {
+            (Ok(Ok(a)), Ok(Ok(b))) => (a.len() as i64, b.len() as i64, a.len() == b.len() && a.iter().zip(b).all(|(x, y)| x.to_bits() == y.to_bits())),
+            (Ok(Ok(a)), _) => (a.len() as i64, -1, false),
+            (_, Ok(Ok(b))) => (-1, b.len() as i64, false),
+            _ => (-1, -1, false),
+        };
+        let mut line = format!("units {} {} {} {} {} {} {}", kind, sf, fp, nstate, nlab, frames, if last1 == 0 { "rate-last" } else { "period-last" });
+        line.push_str(&format!(" {} {} {}", len1, len2, same as usize));
+        println!("{}", line);
+    }
+}
+
 // =========================================================================================== e2e
 /// in-envelope setter calls, applied to `c` and returned in the `cond` op syntax
 pub fn envelope_ops(rng: &mut Rng, c: &mut jbonsai::engine::Condition, ns: usize) -> (String, usize) {
